@@ -26,8 +26,7 @@ Verdict(row, r, k, x, g) ==
 RowVerdicts(row, r) == LET x == Pair(row.s, row.t) g == GitPair(x)       \* computed once per pair
                        IN {Verdict(row, r, k, x, g) : k \in 1..Len(row.qs)}
 Judge(rows) == LET all == UNION {RowVerdicts(rows[r], r) : r \in 1..Len(rows)}
-                   nq[r \in 0..Len(rows)] == IF r = 0 THEN 0 ELSE nq[r - 1] + Len(rows[r].qs)
-               IN [n |-> Len(rows), nq |-> nq[Len(rows)],
+               IN [n |-> Len(rows), nq |-> Cardinality(all),        \* one verdict per (row, query)
                    bad |-> SetToSeq({v \in all : v.failed # <<>> \/ v.gitfailed # <<>> \/ v.drift # <<>>})]
 ASSUME JsonSerialize(IOEnv.VF_OUT, Judge(JsonDeserialize(IOEnv.VF_IN)))
 =============================================================================
